@@ -19,7 +19,8 @@ EXTENDS QuotaAccountingTrace
 RS == INSTANCE RuntimeShare
 VARIABLE scaleOn    \* min-quota scaling enabled for this segment (fixed during a behaviour)
 
-\* CPU is kept in milli-units inside the calculator
+\* CPU is kept in milli-units inside the calculator; the abstract cluster total (node events) is kept in the calculator's
+\* units too, because a node may add a fraction of a core
 Scale(d) == IF d = "cpu" THEN 1000 ELSE 1
 
 SibNames(lv, d) == {lv.sibs[d][k].name : k \in 1..Len(lv.sibs[d])}
@@ -64,7 +65,7 @@ TRefresh ==
     /\ Ev.name \in DOMAIN quota
     /\ PathOK(Ev.levels, Ev.name)
     /\ \A d \in quota[Ev.name].dims :               \* the dimensions the groups on the path declare
-          /\ LevelsOK(Ev.levels, 1, d, Scale(d) * cluster[d])
+          /\ LevelsOK(Ev.levels, 1, d, cluster[d])
           /\ Ev.result[d] = RtOf(Ev.levels[Len(Ev.levels)], d, Ev.name)     \* logged in calculator units
 
 TreeInit == \E i \in Starts : TraceStart(i) /\ Init /\ scaleOn = Get(Trace[i], "scale", FALSE)
